@@ -33,32 +33,32 @@ type NodeSpec struct {
 
 type Chunk struct {
 	Data        []byte
-	WaitReplies int // deliverable only after the client has received this many complete replies
-	WaitTicks   int // deliverable only after this many TICK events
+	WaitReplies int                 // deliverable only after the client has received this many complete replies
+	WaitTicks   int                 // deliverable only after this many TICK events
 	Gate        func(w *World) bool // optional extra condition
 }
 
 type ClientSpec struct {
-	IP         [4]byte
-	Chunks     []Chunk
-	Slow       bool
-	Flood      bool // a sender that never waits: once its first chunk has been delivered its socket is topped up again after
+	IP     [4]byte
+	Chunks []Chunk
+	Slow   bool
+	Flood  bool // a sender that never waits: once its first chunk has been delivered its socket is topped up again after
 	// every read of the proxy (at least two read buffers' worth pending) until the chunks run out, as if the
 	// client always won the race against the proxy
 	CloseAfter int // >0: a FIN becomes schedulable once this many chunks were delivered; 0: never
 	CloseRST   bool
-	Expect     [][]byte // reference reply per request (nil entry = unspecified)
+	Expect     [][]byte       // reference reply per request (nil entry = unspecified)
 	ExpectAlt  map[int][]byte // position -> second acceptable reply
-	ExpectEOF  bool     // reference: proxy closes the connection after the last reply
-	Reqs       [][]byte // the requests, for reporting
+	ExpectEOF  bool           // reference: proxy closes the connection after the last reply
+	Reqs       [][]byte       // the requests, for reporting
 }
 
 type Fault struct {
-	Kind   string // "backend-close", "backend-rst", "topo" (CLUSTER NODES update adopted by the refresh code)
-	Addr   string // node address (first open connection to it)
-	AfterW int    // enabled once that connection has received this many commands
-	AfterTicks int // enabled once this many TICK events have happened
-	Nodes  []NodeSpec // topo: the new topology
+	Kind       string     // "backend-close", "backend-rst", "topo" (CLUSTER NODES update adopted by the refresh code)
+	Addr       string     // node address (first open connection to it)
+	AfterW     int        // enabled once that connection has received this many commands
+	AfterTicks int        // enabled once this many TICK events have happened
+	Nodes      []NodeSpec // topo: the new topology
 }
 
 // ReplyFn lets a scenario override what a node answers. Return nil for the model's default.
@@ -80,23 +80,23 @@ type Scenario struct {
 	RetryTimeoutMs    int
 	Whitelist         []string // nil: disabled
 	// world
-	Clients      []ClientSpec
-	Reply        ReplyFn
-	ReplyCuts    []int           // every backend reply is cut at these offsets (that are < len)
-	CoalesceAll  bool            // a backend read event delivers ALL replies that are ready (several replies in one read)
-	CoalesceChoice bool          // ... or how many of them is an explorer choice (kind "coalesce")
-	HandshakeCuts []int          // non-nil: AUTH/READONLY replies of one write are coalesced and cut at these offsets
-	Stateful     bool            // nodes keep a real KV (GET/SET/DEL/MGET/MSET/INCR/APPEND)
-	CheckOwner   bool            // nodes answer -MOVED for slots they do not own
-	RefuseDial   map[string]int  // addr -> number of initial dials refused (-1: always)
-	Faults       []Fault
-	Ticks        []time.Duration // TICK events available, in order
-	TickGate     func(w *World) bool // nil or: TICK is only enabled when this holds
-	SlowBackends bool
+	Clients        []ClientSpec
+	Reply          ReplyFn
+	ReplyCuts      []int          // every backend reply is cut at these offsets (that are < len)
+	CoalesceAll    bool           // a backend read event delivers ALL replies that are ready (several replies in one read)
+	CoalesceChoice bool           // ... or how many of them is an explorer choice (kind "coalesce")
+	HandshakeCuts  []int          // non-nil: AUTH/READONLY replies of one write are coalesced and cut at these offsets
+	Stateful       bool           // nodes keep a real KV (GET/SET/DEL/MGET/MSET/INCR/APPEND)
+	CheckOwner     bool           // nodes answer -MOVED for slots they do not own
+	RefuseDial     map[string]int // addr -> number of initial dials refused (-1: always)
+	Faults         []Fault
+	Ticks          []time.Duration     // TICK events available, in order
+	TickGate       func(w *World) bool // nil or: TICK is only enabled when this holds
+	SlowBackends   bool
 	// exploration
-	Bound       int // max deviations; <0: unbounded
+	Bound       int      // max deviations; <0: unbounded
 	FreeKinds   []string // choice kinds ("sched","intn","order","write") whose alternatives cost no deviation (always enumerated)
-	Horizon     int // max scheduling steps
+	Horizon     int      // max scheduling steps
 	OrderSites  []string
 	IntnChoice  bool
 	IntnGate    func(w *World) bool // rand.Intn is a choice point only while this holds
@@ -110,10 +110,10 @@ type Scenario struct {
 	Observe func(w *World) string
 	Final   func(obs map[string]int) []Violation
 	// oracle
-	CrashSig string // signature to report for a proxy panic in this scenario ("" = "crash")
+	CrashSig   string // signature to report for a proxy panic in this scenario ("" = "crash")
 	HorizonSig string // signature to report when the step horizon is hit ("" = not a violation by itself)
-	Check func(w *World) []Violation
-	Quiescent func(w *World) *Violation
+	Check      func(w *World) []Violation
+	Quiescent  func(w *World) *Violation
 }
 
 type Violation struct {
@@ -127,33 +127,33 @@ type Violation struct {
 type CmdRec struct {
 	Replica  bool // the receiving node was a replica in the topology current at that time
 	ReadOnly bool // the connection had been switched to READONLY before this command
-	CR    int // total complete replies all clients had received when this command arrived
-	Seq   int
-	Addr  string
-	Conn  int
-	Raw   []byte
-	Args  [][]byte
-	Reply []byte
+	CR       int  // total complete replies all clients had received when this command arrived
+	Seq      int
+	Addr     string
+	Conn     int
+	Raw      []byte
+	Args     [][]byte
+	Reply    []byte
 }
 
 type BConn struct {
-	ID        int
-	Addr      string
-	Node      *NodeSpec
-	Sock      *vsys.Sock
-	inbox     []byte
-	outbox    []outChunk
-	Log       []CmdRec
-	Malformed string
-	Authed    bool
-	ReadOnly  bool
-	Asking    bool
-	hsMerged  int
+	ID                int
+	Addr              string
+	Node              *NodeSpec
+	Sock              *vsys.Sock
+	inbox             []byte
+	outbox            []outChunk
+	Log               []CmdRec
+	Malformed         string
+	Authed            bool
+	ReadOnly          bool
+	Asking            bool
+	hsMerged          int
 	WrittenAfterClose int
-	Delivered int      // replies whose last byte has been handed to the proxy's socket
-	PreData   []string // handshake commands seen before the first data command
-	SawData   bool
-	BadOrder  string
+	Delivered         int      // replies whose last byte has been handed to the proxy's socket
+	PreData           []string // handshake commands seen before the first data command
+	SawData           bool
+	BadOrder          string
 }
 
 type outChunk struct {
@@ -164,51 +164,51 @@ type outChunk struct {
 }
 
 type Client struct {
-	Idx       int
-	Spec      *ClientSpec
-	Sock      *vsys.Sock
-	Accepted  bool
-	next      int
-	Received  []byte
-	NReplies  int
-	ProxyClosed bool
-	PeerClosed  bool
+	Idx          int
+	Spec         *ClientSpec
+	Sock         *vsys.Sock
+	Accepted     bool
+	next         int
+	Received     []byte
+	NReplies     int
+	ProxyClosed  bool
+	PeerClosed   bool
 	BytesAtClose int
 }
 
 type World struct {
-	Sc       *Scenario
-	Opts     *core.Options
-	Handler  core.EventHandler
-	VW       *core.VerifWorld
-	Ln       *vsys.Sock
-	Clients  []*Client
-	BConns   []*BConn
-	KV       map[string]map[string]string // addr -> kv
-	Cmds     []CmdRec                     // global order
-	Ticks    int
+	Sc        *Scenario
+	Opts      *core.Options
+	Handler   core.EventHandler
+	VW        *core.VerifWorld
+	Ln        *vsys.Sock
+	Clients   []*Client
+	BConns    []*BConn
+	KV        map[string]map[string]string // addr -> kv
+	Cmds      []CmdRec                     // global order
+	Ticks     int
 	faultUsed []bool
 	dialCount map[string]int
-	Steps    int
-	Events   []string // labels of the events taken (only when tracing)
+	Steps     int
+	Events    []string // labels of the events taken (only when tracing)
 
-	Panic      interface{}
-	Stack      string
-	Livelock   bool
-	HorizonHit bool
-	RunErr     error
-	EarlyViol  *Violation
+	Panic        interface{}
+	Stack        string
+	Livelock     bool
+	HorizonHit   bool
+	RunErr       error
+	EarlyViol    *Violation
 	ProbeReplies int
-	ClusterView []NodeSpec // what the nodes report in CLUSTER NODES (nil: Sc.Nodes); changed by the "nodes-change" fault
-	refreshDone chan struct{}
+	ClusterView  []NodeSpec // what the nodes report in CLUSTER NODES (nil: Sc.Nodes); changed by the "nodes-change" fault
+	refreshDone  chan struct{}
 	refreshPanic interface{}
-	barrier    chan string
-	barrierSeq int
-	refreshKill bool
-	goBase     int
-	RefreshDead bool
-	TickUnread []map[int]bool // per TICK: Seq of commands whose reply the proxy had not completely read yet
-	Topo       []NodeSpec // current topology as last injected (nil: Sc.Nodes)
+	barrier      chan string
+	barrierSeq   int
+	refreshKill  bool
+	goBase       int
+	RefreshDead  bool
+	TickUnread   []map[int]bool // per TICK: Seq of commands whose reply the proxy had not completely read yet
+	Topo         []NodeSpec     // current topology as last injected (nil: Sc.Nodes)
 }
 
 type evKind int
